@@ -15,6 +15,11 @@ CHECKS = {
             "This visits every parent x child x grandchild combination of converters, which is where the acceptance defects live, and no example-based test can.",
             E1_NOTE),
     # id: (technique, level text, level note)
+    'C02': ("exhaustive enumeration of the full matrix kind(value) x kind(target) x embedding context on the real converters; literal forbidden-relation oracle",
+            "The complete Cartesian product of 41 data representatives (16 kinds), 40 target types and 13 embedding contexts (thorough: all 169 context pairs) is run through "
+            "pane.from_data; every pair the statement forbids must raise ConvertError, inside a union the datum must come back as itself through its own-kind member, and the "
+            "lossless widenings must produce the exact widened value. The matrix is finite, so every cell is visited.",
+            "Forbidden relation transcribed from the statement; bool/int overlap cells are UNSPEC. Representatives per kind are fixed."),
     'C03': ("bounded-exhaustive converter x value enumeration; internal differential oracle between the two hand-mirrored passes of the real converters",
             "For every converter obtainable from the extended grammar (all built-in converters, user conditions incl. raising and non-bool predicates, the three tagged layouts, "
             "HasConverter classes, ValueOrList, Range, ndarray, dataclasses with raising hooks and init=False fields) and every value of the universe (plus a typed-value pool), "
